@@ -46,7 +46,8 @@ const Type& OpDIVExpression::type(Context& ctx) const
     return Value::type_imaginary;
   if (t1 == Type::INTEGER && t2 == Type::INTEGER)
     return Value::type_integer;
-  if (t1 == Type::NUMERIC || t2 == Type::NUMERIC)
+  /* with an opaque operand the result may as well be complex */
+  if ((t1 == Type::NUMERIC && !(t2 == Type::NO_TYPE)) || (t2 == Type::NUMERIC && !(t1 == Type::NO_TYPE)))
     return Value::type_numeric;
   return Value::type_no_type;
 }
